@@ -160,6 +160,12 @@ func init() {
 		"math.Float64frombits": func(fr *frame, a []Value) Value { return a[0] },
 		"math.Float32bits":     func(fr *frame, a []Value) Value { return a[0] },
 		"math.Float32frombits": func(fr *frame, a []Value) Value { return a[0] },
+		"math.Trunc":     inTrunc,
+		"math.archTrunc": inTrunc,
+		"math.Floor":     func(fr *frame, a []Value) Value { return fr.x.f.UF("fp_floor", 64, a[0].(*Term)) },
+		"math.archFloor": func(fr *frame, a []Value) Value { return fr.x.f.UF("fp_floor", 64, a[0].(*Term)) },
+		"math.Ceil":      func(fr *frame, a []Value) Value { return fr.x.f.UF("fp_ceil", 64, a[0].(*Term)) },
+		"math.archCeil":  func(fr *frame, a []Value) Value { return fr.x.f.UF("fp_ceil", 64, a[0].(*Term)) },
 		"math.Abs": func(fr *frame, a []Value) Value {
 			t := a[0].(*Term)
 			return fr.x.f.Bin(OpBAnd, t, fr.x.f.Const(64, ^(uint64(1)<<63)))
@@ -494,6 +500,25 @@ func inAppendUint(fr *frame, a []Value) Value {
 
 // floatToken: 'f' -> one opaque digit; 'e' -> d 'e' sign d d [d] with symbolic bytes so that
 // zerolog's exponent clean-up runs on real symbolic data.
+// inTrunc: math.Trunc as an exact bit-vector function of the IEEE-754 pattern: with unbiased
+// exponent e, |x| < 1 gives a signed zero, e >= 52 (integers, Inf, NaN) gives x, otherwise the
+// low 52-e mantissa bits are cleared.
+func inTrunc(fr *frame, a []Value) Value {
+	f := fr.x.f
+	v := a[0].(*Term)
+	if v.IsConst() {
+		return f.Const(64, math.Float64bits(math.Trunc(math.Float64frombits(v.val))))
+	}
+	exp := f.Bin(OpBAnd, f.Bin(OpLShr, v, f.Const(64, 52)), f.Const(64, 0x7ff))
+	small := f.Bin(OpUlt, exp, f.Const(64, 1023))
+	big := f.Not(f.Bin(OpUlt, exp, f.Const(64, 1023+52)))
+	sh := f.Bin(OpSub, f.Const(64, 1023+52), exp) // 1..52 in the middle range
+	mask := f.Bin(OpSub, f.Bin(OpShl, f.Const(64, 1), sh), f.Const(64, 1))
+	mid := f.Bin(OpBAnd, v, f.BNot(mask))
+	zero := f.Bin(OpBAnd, v, f.Const(64, 1<<63))
+	return f.Ite(small, zero, f.Ite(big, v, mid))
+}
+
 func inAppendFloat(fr *frame, a []Value) Value {
 	x := fr.x
 	f := x.f
